@@ -177,12 +177,44 @@ func (t *toks) int() int64 {
 	return n
 }
 func (t *toks) bool() bool { return t.next() == "1" }
-func (t *toks) hex() []byte {
-	b, err := vh.UnHex(t.next())
+// unhexX: hex, or x<n>*<hh> = n copies of the byte hh
+func unhexX(s string) []byte {
+	if strings.HasPrefix(s, "x") {
+		parts := strings.Split(s[1:], "*")
+		if len(parts) != 2 {
+			panic("bad-op")
+		}
+		n, err := strconv.Atoi(parts[0])
+		b, err2 := vh.UnHex(parts[1])
+		if err != nil || err2 != nil || len(b) != 1 || n < 0 {
+			panic("bad-op")
+		}
+		return bytes.Repeat(b, n)
+	}
+	b, err := vh.UnHex(s)
 	if err != nil {
 		panic("bad-op")
 	}
 	return b
+}
+
+func (t *toks) hex() []byte { return unhexX(t.next()) }
+
+// count: <n> (n items follow) or *<n> (one item follows, repeated n times)
+func (t *toks) count() (n int, repeat bool) {
+	s := t.next()
+	if strings.HasPrefix(s, "*") {
+		k, err := strconv.Atoi(s[1:])
+		if err != nil || k < 0 {
+			panic("bad-op")
+		}
+		return k, true
+	}
+	k, err := strconv.Atoi(s)
+	if err != nil || k < 0 {
+		panic("bad-op")
+	}
+	return k, false
 }
 func (t *toks) optb() []byte {
 	s := t.next()
@@ -192,23 +224,31 @@ func (t *toks) optb() []byte {
 	if !strings.HasPrefix(s, "v") {
 		panic("bad-op")
 	}
-	b, err := vh.UnHex(s[1:])
-	if err != nil {
-		panic("bad-op")
-	}
-	return b
+	return unhexX(s[1:])
 }
+func (t *toks) value() (x val) {
+	x.name = t.hex()
+	if t.i < len(t.w) && t.w[t.i] == "u" {
+		t.i++
+		x.unset = true
+	} else {
+		x.value = t.optb()
+	}
+	return
+}
+
 func (t *toks) values() []val {
-	n := int(t.int())
+	n, rep := t.count()
 	vs := make([]val, n)
-	for i := range vs {
-		vs[i].name = t.hex()
-		if t.w[t.i] == "u" {
-			t.i++
-			vs[i].unset = true
-		} else {
-			vs[i].value = t.optb()
+	if rep {
+		x := t.value()
+		for i := range vs {
+			vs[i] = x
 		}
+		return vs
+	}
+	for i := range vs {
+		vs[i] = t.value()
 	}
 	return vs
 }
@@ -253,10 +293,17 @@ func parseReq(t *toks) *hreq {
 	case "auth":
 		h.data = t.optb()
 	case "register":
-		n := int(t.int())
+		n, rep := t.count()
 		h.events = make([][]byte, n)
-		for i := range h.events {
-			h.events[i] = t.hex()
+		if rep {
+			e := t.hex()
+			for i := range h.events {
+				h.events[i] = e
+			}
+		} else {
+			for i := range h.events {
+				h.events[i] = t.hex()
+			}
 		}
 	case "query":
 		h.stmt = t.hex()
@@ -276,12 +323,22 @@ func parseReq(t *toks) *hreq {
 		h.serial = int(t.int())
 		h.dts = t.bool()
 		h.tsv = t.int()
-		n := int(t.int())
+		n, rep := t.count()
 		h.stmts = make([]bstmt, n)
-		for i := range h.stmts {
-			h.stmts[i].id = t.hex()
-			h.stmts[i].stmt = t.hex()
-			h.stmts[i].values = t.values()
+		if rep {
+			var st bstmt
+			st.id = t.hex()
+			st.stmt = t.hex()
+			st.values = t.values()
+			for i := range h.stmts {
+				h.stmts[i] = st
+			}
+		} else {
+			for i := range h.stmts {
+				h.stmts[i].id = t.hex()
+				h.stmts[i].stmt = t.hex()
+				h.stmts[i].values = t.values()
+			}
 		}
 		h.payload = t.payload()
 	default:
@@ -612,6 +669,19 @@ func inRange(h *hreq) bool {
 	return h.stream >= 0 && h.stream < 32768
 }
 
+// digest of a very large frame: length, first 40 bytes, FNV-1a 32
+func digest(b []byte) string {
+	h := uint32(2166136261)
+	for _, c := range b {
+		h = (h ^ uint32(c)) * 16777619
+	}
+	head := b
+	if len(head) > 40 {
+		head = head[:40]
+	}
+	return fmt.Sprintf("len=%d head=%s fnv=%d", len(b), vh.Hex(head), h)
+}
+
 // ---------- replay of one op line
 
 func exec(op string) (res string) {
@@ -635,6 +705,13 @@ func exec(op string) (res string) {
 			return outcome
 		}
 		return vh.Hex(frame)
+	case "encd":
+		h := parseReq(&toks{w: w, i: 1})
+		frame, outcome := buildListedOrder(h, nil)
+		if outcome != "" {
+			return outcome
+		}
+		return digest(frame)
 	case "dec":
 		want, err := vh.UnHex(w[1])
 		if err != nil {
@@ -1193,6 +1270,33 @@ func main() {
 				h.events = append(h.events, []byte{byte('a' + i%26)})
 			}
 			g.emit(h, fmt.Sprintf("register/v%d/n%s", v, sizeClass(n)))
+		}
+	}
+	// 5. compact very large requests (digest answers): counts and short strings around 2^16, far beyond
+	for ni, n := range []int{65535, 65536, 65537, 65536 + 255, 131072} {
+		for v := 1; v <= 5; v++ {
+			if tier != "thorough" && n != 65536 && v != 1+(ni+int(vh.EnvSeed()))%5 {
+				continue
+			}
+			ops := []string{
+				fmt.Sprintf("encd %d 0 %d execute ab 1 0 0 - 0 0 0 - *%d - n 0", v, n%128, n),
+				fmt.Sprintf("encd %d 1 %d execute ab 1 0 0 - 0 0 0 - *%d - v01 0", v, n%128, n),
+				fmt.Sprintf("encd %d 0 %d register *%d 61", v, n%128, n),
+				fmt.Sprintf("encd %d 0 %d register 1 x%d*62", v, n%128, n),
+				fmt.Sprintf("encd %d 0 %d execute x%d*63 1 0 0 - 0 0 0 - 0 0", v, n%128, n),
+				fmt.Sprintf("encd %d 0 %d startup 1 x%d*64 x%d*65", v, n%128, n, n+1),
+				fmt.Sprintf("encd %d 0 %d batch 1 4 0 0 0 *%d - 78 0 0", v, n%128, n),
+				fmt.Sprintf("encd %d 0 %d batch 1 4 0 0 0 2 ab - *%d - v02 - 79 1 - n 0", v, n%128, n),
+			}
+			if v >= 3 {
+				ops = append(ops, fmt.Sprintf("encd %d 0 %d query 78 1 0 0 - 0 0 0 - 1 x%d*6e v01 0", v, n%128, n))
+			}
+			if v >= 5 {
+				ops = append(ops, fmt.Sprintf("encd %d 0 %d query 78 1 0 0 - 0 0 0 x%d*6b 0 0", v, n%128, n))
+			}
+			for _, op := range ops {
+				out.Case(op, exec(op), fmt.Sprintf("encd/v%d/n%d", v, n), true)
+			}
 		}
 	}
 	out.Close(map[string]interface{}{"tier": tier})
